@@ -44,10 +44,19 @@ theorem eatDecimalEscapeLoop_wb : ∀ (n : Nat) (r : List Nat) (s : St), BAt src
 theorem eatDecimalEscape_wb (n : Nat) (r : List Nat) (s : St) (h : BAt src K r s) :
     Wp (eatDecimalEscape n s) (fun b s1 => Keep s s1 ∧
       if b = true then ∃ r1 v, BAt src K r1 s1 ∧ DecimalEscape r r1 v ∧ s1.lastIntValue = satI v
-      else BAt src K r s1) := by
+      else BAt src K r s1 ∧ ∀ d, r.head? = some d → ¬NonZeroDigit d) := by
   unfold eatDecimalEscape
   rx6_auto
-  · rx6_false
+  · rx6_falsen
+    rename_i x r' hn
+    intro d hd hnz
+    have e : x = d := by simpa using hd
+    subst e
+    apply hn
+    have h' : 0x31 ≤ x ∧ x ≤ 0x39 := hnz
+    rw [isAsciiDigit_of_decimalDigit (show DecimalDigit x from (by show 0x30 ≤ x ∧ x ≤ 0x39; omega))]
+    have : x ≠ ch '0' := by show x ≠ 0x30; omega
+    simpa using this
   · rename_i x r' hc d hd
     have hx : isAsciiDigit x = true := (Bool.and_eq_true _ _ |>.mp hc).1
     have hx0 : x ≠ ch '0' := by
@@ -81,7 +90,8 @@ theorem eatDecimalEscape_wb (n : Nat) (r : List Nat) (s : St) (h : BAt src K r s
       rw [this, accDec_satI]
       show satI _ = satI (List.foldl _ (10 * 0 + decVal x) ds)
       rw [Nat.mul_zero, Nat.zero_add]
-  · rx6_false
+  · rx6_falsen
+    exact fun d hd => nomatch hd
 
 theorem eatFixedHexDigitsLoop_wb (start : Nat) (hle : start ≤ src.length) :
     ∀ (k j : Nat) (r : List Nat) (s : St) (a : Nat), BAt src K r s → s.lastIntValue = (a : Int) → a < 16 ^ j →
